@@ -673,6 +673,50 @@ def judge_o_poly(inp, obs, lr):
     return None
 
 
+# ---- the SIZE parameter swept over a wide range ---------------------------------------------------------------------
+def gen_o_polysize(rng, n):
+    # every number of sides 3..400 (in a shuffled order, repeated with other parameters when the budget is larger)
+    ks = list(range(3, 401))
+    for i in range(n):
+        if i % len(ks) == 0:
+            rng.shuffle(ks)
+        k = ks[i % len(ks)]
+        yield {"n": k, "dim": rng.choice([2, 2, 3]), "by_radius": rng.random() < 0.5, "radius": rng.uniform(0.3, 2.5),
+               "frac": rng.uniform(0.05, 0.95)}
+
+
+def run_o_polysize(inp):
+    k, dim = inp["n"], inp["dim"]
+    if inp["by_radius"]:
+        r = inp["radius"]
+        P = H.Polygon.regular_polygon(k, radius=r, dimension=dim)
+    else:
+        a = inp["frac"] * (k - 2) * math.pi / k
+        r = float(H.regular_polygon_radius(k, a))
+        P = H.Polygon.regular_polygon(k, angle=a, dimension=dim)
+    data = np.array(P.get_vertices().proj_data, dtype=float)
+    cnt = data.shape[0]
+    o = H.Point.get_origin(dim)
+    idx = sorted(set([0, 1, cnt // 2, cnt - 1]))
+    radii = [_d(o, H.Point(data[i].copy())) for i in idx]
+    sides = [_d(H.Point(data[i].copy()), H.Point(data[(i + 1) % cnt].copy())) for i in idx]
+    return {"cnt": cnt, "radii": radii, "sides": sides, "r": r}
+
+
+def judge_o_polysize(inp, obs, lr):
+    tags = {"n": inp["n"], "by_radius": inp["by_radius"], "dim": inp["dim"]}
+    if "exc" in obs:
+        return {"expected": "regular polygon", "observed": obs, "tags": dict(tags, exc=obs["exc"])}
+    if obs["cnt"] != inp["n"]:
+        return {"expected": f"{inp['n']} vertices", "observed": obs["cnt"], "tags": dict(tags, what="count")}
+    r = obs["r"]
+    side = math.acosh(max(1.0, math.cosh(r) ** 2 - math.sinh(r) ** 2 * math.cos(2 * math.pi / inp["n"])))
+    tol = 1e-6 * (1 + math.cosh(r) ** 2)
+    if not (np.abs(np.array(obs["radii"]) - r).max() <= tol and np.abs(np.array(obs["sides"]) - side).max() <= tol * 10):
+        return {"expected": {"radius": r, "side (law of cosines with central angle 2 pi / n)": side}, "observed": obs, "tags": dict(tags, what="radius/side")}
+    return None
+
+
 # ---- histories: query, transform / overwrite, query again (derived isometries must follow the object) -------------
 HIST_OPS = ["origin_to", "point_along", "isometry_to", "transform", "transform_apply", "set", "normalized", "angle"]
 
@@ -1025,6 +1069,9 @@ CLAUSES = [
            budget={"quick": 80, "thorough": 3000},
            what="stacks of tangent vectors of mixed kinds (both sheets, extreme scales; 2-6 members, exactly dim+1 members, rank-2 stacks): member i of "
                 "origin_to / isometry_to / point_along(array) hits its own targets, is orientation preserving when forced, and in H^2 equals the single answer"),
+    Clause("polygon_size_oracle", "oracle", gen_o_polysize, run_o_polysize, judge_o_polysize, site="hyperbolic.Polygon.regular_polygon",
+           budget={"quick": 398, "thorough": 1990},
+           what="regular_polygon for EVERY number of sides 3..400 (both request routes): vertex count, circumradius and side length (law of cosines, central angle 2 pi / n) on four vertices"),
     Clause("along_oracle", "oracle", gen_o_along, run_o_along, judge_o_along, site="hyperbolic.TangentVector.point_along",
            budget={"quick": 200, "thorough": 8000}, what="|t| along a unit tangent (both signs), on the geodesic, law of cosines, towards q reaches q"),
     Clause("surface_polygon_oracle", "oracle", gen_o_surface, run_o_surface, judge_o_surface, site="hyperbolic.Polygon.regular_surface_polygon",
